@@ -265,6 +265,9 @@ pub enum Alt {
   ForeignCert(u8),
   /// participant data carrying a GUID that is not bound to the certificate; hash kept / recomputed / dropped
   UnboundGuid(u8),
+  /// the inner alteration, and the optional hash_c1 / hash_c2 aids removed as well (their absence switches
+  /// sanity comparisons off, so an alteration they would have caught must be caught by something else)
+  NoHash(Box<Alt>),
 }
 
 pub const CLASS_IDS: [&str; 3] = ["DDS:Auth:PKI-DH:1.0+Req", "DDS:Auth:PKI-DH:1.0+Reply", "DDS:Auth:PKI-DH:1.0+Final"];
@@ -297,6 +300,15 @@ fn recompute_hash(t: &mut Token, mode: u8) {
 pub fn apply(alt: &Alt, m: &Token, old: &Token) -> Option<Token> {
   let mut t = m.clone();
   match alt {
+    Alt::NoHash(inner) => {
+      let mut t = apply(inner, m, old)?;
+      let before = t.data_holder.binary_properties.len();
+      t.data_holder.binary_properties.retain(|p| p.name != "hash_c1" && p.name != "hash_c2");
+      if t.data_holder.binary_properties.len() == before {
+        return None;
+      }
+      return Some(t);
+    }
     Alt::Verbatim => {}
     Alt::FromOldRun => t = old.clone(),
     Alt::ClassId(k) => {
